@@ -14,9 +14,10 @@ from ..runner import Result
 
 ID = 'C14'
 RULE = ('Generated: (history) a model containing every load kind (lumped, series RLC, trap, Laplace, skin effect, '
-        'insulation) and a drawn sequence of 3..12 operations on ONE long-lived model object: set frequency (factor '
+        'insulation) and a drawn sequence of 2..5 phases (changes, solve, observations; 2..30 operations) on ONE long-lived model object: set frequency (factor '
         '0.5..2 of the base frequency, also back to earlier values), compute, compute twice, far field, near field, '
-        'replace the sources (m.sources = [] + register_source on drawn pulses), '
+        'replace the sources (m.sources = [] + register_source on drawn pulses), register a further lumped load, repeat an '
+        'earlier field request, '
         'report; after every compute / field / report operation currents, impedances, patterns, near fields (1e-12 '
         'relative) and the report text (byte-identical) are compared with a model built freshly from the same '
         'options at the current frequency.  (sweep) the command line with --frequency-steps: the frequency '
@@ -28,7 +29,7 @@ BUDGET = {'quick': {'examples': 500, 'wall': 220}, 'thorough': {'examples': 1200
 ASSUMPTIONS = ['the load listing is not compared between sweep and single run: in sweep mode it is printed once by design',
                'process determinism can only be detected probabilistically (miss probability (1/k!)^3 for k whole-object attachments)']
 LABEL_FLOORS = {'mode-history': 0.5, 'mode-sweep': 0.1, 'mode-process': 0.05, 'freq-dependent-distributed-load': 0.4,
-                'field-between-computes': 0.1, 'returns-to-earlier-frequency': 0.1, 'sources-replaced': 0.2}
+                'field-between-computes': 0.1, 'returns-to-earlier-frequency': 0.1, 'sources-replaced': 0.12, 'load-added': 0.1, 'same-field-request-again': 0.15}
 
 
 @st.composite
@@ -75,27 +76,44 @@ def case_strategy(draw, big=False):
         ops = []
         freqs = [1.0]
         npl = len(gen.stand_in_topology(case)[0].pulses)
-        for i in range(draw(st.integers(3, 12 if not big else 20))):
-            k = draw(st.sampled_from(['f', 'f', 'compute', 'compute', 'compute2', 'far', 'near', 'report', 'sources']))
+        # phases: 0..2 changes (frequency, sources, a further load), a solve (once or twice), 0..3 observations
+        # (far field, near field, report; an earlier request is repeated with probability 3/4)
+        def change():
+            k = draw(st.sampled_from(['f', 'f', 'f', 'sources', 'load']))
             if k == 'sources':
                 # the sources of the object are replaced (m.sources = [] and register_source); what was fed before
                 # must not matter
                 idx = draw(st.lists(st.integers(0, npl - 1), min_size=1, max_size=2, unique=True))
                 ops.append(['sources', [{'pulse': j, 'v': draw(gen.voltage())} for j in idx]])
-            elif k == 'f':
+            elif k == 'load':
+                ops.append(['load', [gen.r6(draw(gen.logf(1, 1e3))), gen.r6(draw(st.floats(-300, 300)))], draw(st.integers(0, npl - 1))])
+            else:
                 if len(freqs) > 1 and draw(st.booleans()):
                     fac = draw(st.sampled_from(freqs))
                 else:
                     fac = gen.r6(draw(st.floats(0.5, 2.0)))
                     freqs.append(fac)
                 ops.append(['f', fac])
+
+        def observe():
+            k = draw(st.sampled_from(['far', 'far', 'near', 'report']))
+            prev = [o for o in ops if o[0] == k]
+            if k == 'report':
+                ops.append(['report'])
+            elif prev and draw(st.integers(0, 3)) > 0:
+                ops.append(copy.deepcopy(draw(st.sampled_from(prev))))
             elif k == 'far':
                 ops.append(['far', [gen.r6(draw(st.floats(0, 40))), gen.r6(draw(st.floats(5, 25))), draw(st.integers(1, 4))],
                             [gen.r6(draw(st.floats(0, 360))), gen.r6(draw(st.floats(10, 90))), draw(st.integers(1, 4))]])
-            elif k == 'near':
-                ops.append(['near', [gen.r6(draw(st.floats(-2, 2)) * lam), gen.r6(draw(st.floats(-2, 2)) * lam), gen.r6(draw(st.floats(0.5, 2)) * lam)]])
             else:
-                ops.append([k])
+                ops.append(['near', [gen.r6(draw(st.floats(-2, 2)) * lam), gen.r6(draw(st.floats(-2, 2)) * lam), gen.r6(draw(st.floats(0.5, 2)) * lam)]])
+
+        for ph_ in range(draw(st.integers(2, 5 if not big else 7))):
+            for _ in range(draw(st.sampled_from([0, 1, 1, 2] if ph_ else [0, 0, 1]))):
+                change()
+            ops.append([draw(st.sampled_from(['compute', 'compute', 'compute2']))])
+            for _ in range(draw(st.integers(0, 3))):
+                observe()
         case['ops'] = ops
     elif mode == 'sweep':
         case['steps'] = draw(st.integers(2, 4))
@@ -137,17 +155,23 @@ def history(case, labels):
     dist_dep = any(l['kind'] in ('skin_c', 'skin_r', 'ins') for l in case['loads'])
 
     cur_src = [None]
+    added = []
 
     def fresh():
         c2 = copy.deepcopy(base)
         c2['f'] = cur_f
         if cur_src[0] is not None:
             c2['sources'] = copy.deepcopy(cur_src[0])
+        if added:
+            c2['_added_loads'] = copy.deepcopy(added)
         m2 = build.model(c2)
+        for l_ in c2.get('_added_loads') or []:
+            m2.register_load(build.mm.Impedance_Load(complex(*l_['z'])), l_['attach'][0])
         m2.compute()
         return m2
 
     hist = []
+    done_fields = []
     for op in case['ops']:
         hist.append(op[0] if op[0] != 'f' else 'f=%g' % op[1])
         if op[0] == 'f':
@@ -164,6 +188,13 @@ def history(case, labels):
             m.sources = []
             for s_ in op[1]:
                 m.register_source(build.mm.Excitation(complex(*s_['v'])), s_['pulse'])
+            computed = False
+            continue
+        if op[0] == 'load':
+            # a further lumped load is registered on the living object
+            labels.append('load-added')
+            added.append({'kind': 'z', 'z': list(op[1]), 'attach': [op[2]]})
+            m.register_load(build.mm.Impedance_Load(complex(*op[1])), op[2])
             computed = False
             continue
         if op[0] in ('compute', 'compute2'):
@@ -188,6 +219,10 @@ def history(case, labels):
         if not (m.power > 0):
             continue
         m2 = fresh()
+        if op[0] in ('far', 'near') and any(o == op for o in done_fields):
+            labels.append('same-field-request-again')
+        if op[0] in ('far', 'near'):
+            done_fields.append(op)
         if op[0] == 'far':
             seen_field_since_compute = True
             m.compute_far_field(A(*op[1]), A(*op[2]))
